@@ -17,6 +17,7 @@ import (
 	"encoding/binary"
 	"fmt"
 	"os"
+	"runtime/debug"
 	"sort"
 	"strings"
 	"sync"
@@ -50,42 +51,95 @@ type tOp struct {
 	abs  int      // index among the non-clone operations (1-based digit of the abstract history id), 0 for clones
 }
 
+var ctorNames = []string{"", "a"}
+
+func bs(ss ...string) [][]byte {
+	out := make([][]byte, len(ss))
+	for i, s := range ss {
+		out[i] = []byte(s)
+	}
+	return out
+}
+
+// Two alphabets. Both are chosen so that the *same bytes* ("ab") are split differently across the label / message /
+// message-count boundaries.
+//
+//	wide  (depth 3, both tiers): strings "", "a", "b", "ab" (two labels of equal length, so that label *bytes* and not
+//	      only label lengths matter; Append("a",["b"]) / Append("ab",[]) / Append("",["ab"]) / Append("",["a","b"]) carry
+//	      the same bytes), 9 message lists including both orders of ("a","b"), lengths 1, 2, 32, 64.
+//	deep  (depth 4, thorough): the alphabet of DESIGN §5 C19 plus the length 137 (one byte more than the cSHAKE256 rate).
 var (
-	ctorNames = []string{"", "a"}
-	strAlpha  = []string{"", "a", "ab"}
-	// the same bytes "ab" split differently across message boundaries / message count
-	msgAlpha = [][][]byte{nil, {[]byte("")}, {[]byte("a")}, {[]byte("ab")}, {[]byte("a"), []byte("b")}, {[]byte(""), []byte("ab")}, {[]byte("a"), []byte("")}}
-	lenAlpha = []uint{1, 2, 32, 64}
-	tOps     = buildOps()
-	numAbs   int // number of non-clone operations
+	wideAlphabet = alphabetSpec{
+		strs: []string{"", "a", "b", "ab"},
+		msgs: [][][]byte{nil, bs(""), bs("a"), bs("b"), bs("ab"), bs("a", "b"), bs("b", "a"), bs("", "ab"), bs("a", "")},
+		lens: []uint{1, 2, 32, 64},
+	}
+	deepAlphabet = alphabetSpec{
+		strs: []string{"", "a", "ab"},
+		msgs: [][][]byte{nil, bs(""), bs("a"), bs("ab"), bs("a", "b"), bs("", "ab"), bs("a", "")},
+		lens: []uint{1, 2, 32, 64, 137},
+	}
 )
+
+type alphabetSpec struct {
+	strs []string
+	msgs [][][]byte
+	lens []uint
+}
+
+func (a alphabetSpec) String() string {
+	ms := make([]string, len(a.msgs))
+	for i, m := range a.msgs {
+		ms[i] = fmt.Sprintf("%q", m)
+	}
+	return fmt.Sprintf("AppendDomainSeparator(t), t in %q; AppendBytes(l, msgs), l in %q, msgs in {%s}; ExtractBytes(l, n), l in %q, n in %v; Clone then continue on the clone; Clone then continue on the origin", a.strs, a.strs, strings.Join(ms, ", "), a.strs, a.lens)
+}
+
+// space is one explored set of histories: an alphabet, a depth and the global injectivity bookkeeping.
+type space struct {
+	suffix     string // section name suffix
+	spec       alphabetSpec
+	ops        []tOp
+	numAbs     int // number of non-clone operations
+	depth      int
+	inj        *injSet
+	enumerated atomic.Bool // the exploration section ran in this process
+	complete   atomic.Bool // ... and covered the whole space (the count comparison is meaningful)
+	enumOnce   sync.Once
+}
+
+func newSpace(suffix string, spec alphabetSpec, depth int) *space {
+	sp := &space{suffix: suffix, spec: spec, depth: depth, inj: newInjSet()}
+	sp.ops, sp.numAbs = buildOps(spec)
+	return sp
+}
 
 const (
 	probeLabel = "probe"
 	probeLen   = 32
 )
 
-func buildOps() []tOp {
+func buildOps(a alphabetSpec) ([]tOp, int) {
 	var ops []tOp
-	for _, t := range strAlpha {
+	for _, t := range a.strs {
 		ops = append(ops, tOp{kind: kDomain, s: t})
 	}
-	for _, l := range strAlpha {
-		for _, m := range msgAlpha {
+	for _, l := range a.strs {
+		for _, m := range a.msgs {
 			ops = append(ops, tOp{kind: kAppend, s: l, msgs: m})
 		}
 	}
-	for _, l := range strAlpha {
-		for _, n := range lenAlpha {
+	for _, l := range a.strs {
+		for _, n := range a.lens {
 			ops = append(ops, tOp{kind: kExtract, s: l, n: n})
 		}
 	}
 	for i := range ops {
 		ops[i].abs = i + 1
 	}
-	numAbs = len(ops)
+	numAbs := len(ops)
 	ops = append(ops, tOp{kind: kCloneContinueOnClone}, tOp{kind: kCloneContinueOnOrigin})
-	return ops
+	return ops, numAbs
 }
 
 func (o tOp) String() string {
@@ -107,27 +161,27 @@ func (o tOp) String() string {
 	}
 }
 
-func histString(name int, hist []int) string {
+func (sp *space) histString(name int, hist []int) string {
 	parts := []string{fmt.Sprintf("New(%q)", ctorNames[name])}
 	for _, h := range hist {
-		parts = append(parts, tOps[h].String())
+		parts = append(parts, sp.ops[h].String())
 	}
 	return strings.Join(parts, "; ")
 }
 
 // absID encodes (constructor name, sequence of non-clone ops) injectively: leading digit 1+name, then base-(numAbs+1)
 // digits in 1..numAbs.
-func absID(name int, abs []int) uint64 {
+func (sp *space) absID(name int, abs []int) uint64 {
 	id := uint64(1 + name)
 	for _, a := range abs {
-		id = id*uint64(numAbs+1) + uint64(tOps[a].abs)
+		id = id*uint64(sp.numAbs+1) + uint64(sp.ops[a].abs)
 	}
 	return id
 }
 
-func decodeAbsID(id uint64) string {
+func (sp *space) decodeAbsID(id uint64) string {
 	var digits []int
-	b := uint64(numAbs + 1)
+	b := uint64(sp.numAbs + 1)
 	for id >= b {
 		digits = append(digits, int(id%b))
 		id /= b
@@ -136,7 +190,7 @@ func decodeAbsID(id uint64) string {
 	for i := len(digits) - 1; i >= 0; i-- {
 		hist = append(hist, digits[i]-1)
 	}
-	return histString(int(id)-1, hist)
+	return sp.histString(int(id)-1, hist)
 }
 
 // ---- running histories on the real transcript -----------------------------------------------------------------
@@ -171,11 +225,11 @@ func probe(t transcripts.Transcript, r *runResult) []byte {
 }
 
 // runPlain executes a clone-free history on a fresh transcript.
-func runPlain(name int, abs []int) runResult {
+func (sp *space) runPlain(name int, abs []int) runResult {
 	var r runResult
 	t := hagrid.NewTranscript(ctorNames[name])
 	for _, a := range abs {
-		applyOp(t, tOps[a], &r)
+		applyOp(t, sp.ops[a], &r)
 	}
 	r.probe = probe(t, &r)
 	return r
@@ -189,7 +243,7 @@ type asideResult struct {
 
 // runWithClones executes a history with Clone operations. The transcript that is not continued is set aside and
 // probed only after all later operations have been applied to the live one; then the live one is probed.
-func runWithClones(name int, hist []int) (runResult, []asideResult) {
+func (sp *space) runWithClones(name int, hist []int) (runResult, []asideResult) {
 	var r runResult
 	type aside struct {
 		t    transcripts.Transcript
@@ -200,7 +254,7 @@ func runWithClones(name int, hist []int) (runResult, []asideResult) {
 	live := hagrid.NewTranscript(ctorNames[name])
 	k := 0
 	for _, h := range hist {
-		o := tOps[h]
+		o := sp.ops[h]
 		switch o.kind {
 		case kCloneContinueOnClone:
 			c := live.Clone()
@@ -272,7 +326,7 @@ func refSqueeze(name int, stream []byte, n uint) []byte {
 }
 
 // runRef computes the outputs of a clone-free history from the framing alone (one cSHAKE256 per extraction).
-func runRef(name int, abs []int) runResult {
+func (sp *space) runRef(name int, abs []int) runResult {
 	var r runResult
 	var stream []byte
 	ext := func(o tOp) []byte {
@@ -282,7 +336,7 @@ func runRef(name int, abs []int) runResult {
 		return out
 	}
 	for _, a := range abs {
-		o := tOps[a]
+		o := sp.ops[a]
 		if o.kind == kExtract {
 			r.steps = append(r.steps, ext(o))
 		} else {
@@ -346,59 +400,52 @@ func (s *injSet) put(out []byte, n uint, owner uint64) {
 	}
 }
 
-func ownerString(o uint64) string {
+func (sp *space) ownerString(o uint64) string {
 	if o&1 == 1 {
-		return "output of the last operation of [" + decodeAbsID(o>>1) + "]"
+		return "output of the last operation of [" + sp.decodeAbsID(o>>1) + "]"
 	}
-	return "Extract(\"probe\",32) after [" + decodeAbsID(o>>1) + "]"
+	return "Extract(\"probe\",32) after [" + sp.decodeAbsID(o>>1) + "]"
 }
-
-var (
-	inj         = newInjSet()
-	transDepth  int
-	enumerated  atomic.Bool // the exploration section ran in this process
-	complete    atomic.Bool // ... and covered the whole space (the count comparison is meaningful)
-	enumOnce    sync.Once
-)
 
 // noModel disables the comparison with the framing model (VERIF_C19_NOMODEL=1). It exists only to demonstrate with
 // seeded defects that the injectivity / clone oracles detect a framing ambiguity on their own.
 var noModel = os.Getenv("VERIF_C19_NOMODEL") == "1"
 
 // evalHistory is the per-history oracle; it is the body of one execution. It returns the observation.
-func evalHistory(x *engine.X, name int, hist []int) string {
+func (sp *space) evalHistory(x *engine.X, name int, hist []int) string {
+	inj, tOps := sp.inj, sp.ops
 	abs := make([]int, 0, len(hist))
 	for _, h := range hist {
 		if tOps[h].abs != 0 {
 			abs = append(abs, h)
 		}
 	}
-	desc := func() string { return histString(name, hist) }
+	desc := func() string { return sp.histString(name, hist) }
 
 	// (2) determinism: the same history on two fresh transcripts, compared at every step
-	r1 := runPlain(name, abs)
-	r2 := runPlain(name, abs)
+	r1 := sp.runPlain(name, abs)
+	r2 := sp.runPlain(name, abs)
 	if r1.err != nil {
 		x.Failf("transcript/extract-error", "ExtractBytes returned an error for a positive length in [%s]: %v", desc(), r1.err)
 		return "error"
 	}
 	if !equalRuns(r1, r2) {
-		x.Failf("transcript/determinism", "two fresh transcripts disagree on [%s]: %x vs %x", histString(name, abs), r1.probe, r2.probe)
+		x.Failf("transcript/determinism", "two fresh transcripts disagree on [%s]: %x vs %x", sp.histString(name, abs), r1.probe, r2.probe)
 	}
 	for i, s := range r1.steps {
-		if len(s) != int(extractLen(abs, i)) {
-			x.Failf("transcript/extract-length", "ExtractBytes returned %d bytes, %d requested, in [%s]", len(s), extractLen(abs, i), desc())
+		if len(s) != int(sp.extractLen(abs, i)) {
+			x.Failf("transcript/extract-length", "ExtractBytes returned %d bytes, %d requested, in [%s]", len(s), sp.extractLen(abs, i), desc())
 		}
 	}
 	// documented framing: the library's bytes equal the reference model's at every step
-	if rr := runRef(name, abs); !noModel && !equalRuns(r1, rr) {
-		x.Failf("transcript/framing-model", "output differs from the documented framing (tag byte, 64-bit length of label / message count / each message / requested length, extraction fork extracted|continued) for [%s]: library steps=%x probe=%x, model steps=%x probe=%x", histString(name, abs), r1.steps, r1.probe, rr.steps, rr.probe)
+	if rr := sp.runRef(name, abs); !noModel && !equalRuns(r1, rr) {
+		x.Failf("transcript/framing-model", "output differs from the documented framing (tag byte, 64-bit length of label / message count / each message / requested length, extraction fork extracted|continued) for [%s]: library steps=%x probe=%x, model steps=%x probe=%x", sp.histString(name, abs), r1.steps, r1.probe, rr.steps, rr.probe)
 	}
 
 	if len(abs) == len(hist) {
 		// (1) injectivity: record the probe of this abstract history, and the output of a trailing >=32-byte
 		// extraction (every (prefix, Extract) combination is the tail of exactly one clone-free history)
-		id := absID(name, abs)
+		id := sp.absID(name, abs)
 		inj.histories.Add(1)
 		inj.put(r1.probe, probeLen, id<<1)
 		if n := len(abs); n > 0 && tOps[abs[n-1]].kind == kExtract && tOps[abs[n-1]].n >= 32 {
@@ -407,12 +454,12 @@ func evalHistory(x *engine.X, name int, hist []int) string {
 	} else {
 		// (3) Clone is the identity on the abstract history, and both copies evolve independently
 		inj.cloneHist.Add(1)
-		r3, asides := runWithClones(name, hist)
+		r3, asides := sp.runWithClones(name, hist)
 		if !equalRuns(r1, r3) {
 			x.Failf("transcript/clone-identity", "[%s] gives %x (steps %x) but the same operations without Clone give %x (steps %x)", desc(), r3.probe, r3.steps, r1.probe, r1.steps)
 		}
 		for _, a := range asides {
-			want := runPlain(name, abs[:a.k])
+			want := sp.runPlain(name, abs[:a.k])
 			if !bytes.Equal(a.probe, want.probe) {
 				x.Failf("transcript/clone-independence", "[%s]: %s; its probe is %x but a fresh transcript with the operations before the Clone gives %x", desc(), a.what, a.probe, want.probe)
 			}
@@ -421,7 +468,8 @@ func evalHistory(x *engine.X, name int, hist []int) string {
 	return fmt.Sprintf("%x", r1.probe[:8])
 }
 
-func extractLen(abs []int, i int) uint {
+func (sp *space) extractLen(abs []int, i int) uint {
+	tOps := sp.ops
 	for _, a := range abs {
 		if tOps[a].kind == kExtract {
 			if i == 0 {
@@ -445,31 +493,52 @@ func equalRuns(a, b runResult) bool {
 	return true
 }
 
-// historiesBody: one execution = one history (choice 0 = stop, so every prefix is itself an execution).
-func historiesBody(x *engine.X) {
+// chooseLevels: the first operations of a history are engine choice points (0 = stop, so every short history is an
+// execution of its own); the remaining levels are enumerated by an inner loop inside the execution of their prefix.
+// (One execution per history made the engine's bookkeeping, not the library, the dominant cost.)
+const chooseLevels = 2
+
+func (sp *space) historiesBody(x *engine.X) {
 	name := x.Choose("name", len(ctorNames))
 	var hist []int
-	for len(hist) < transDepth {
-		c := x.Choose("op", len(tOps)+1)
+	for len(hist) < chooseLevels && len(hist) < sp.depth {
+		c := x.Choose("op", len(sp.ops)+1)
 		if c == 0 {
 			break
 		}
 		hist = append(hist, c-1)
 	}
-	x.Observe(evalHistory(x, name, hist))
+	x.Case("")
+	x.Observe(sp.evalHistory(x, name, hist))
+	if len(hist) < chooseLevels {
+		return
+	}
+	var rec func(h []int)
+	rec = func(h []int) {
+		if len(h) == sp.depth {
+			return
+		}
+		for o := range sp.ops {
+			nh := append(h[:len(h):len(h)], o)
+			x.Case("")
+			sp.evalHistory(x, name, nh)
+			rec(nh)
+		}
+	}
+	rec(hist)
 }
 
 // enumerateDirect is the plain recursive enumeration of the same space; it is used only when the injectivity
 // section runs without the exploration before it (replay of a recorded injectivity violation).
-func enumerateDirect() {
+func (sp *space) enumerateDirect() {
 	x := &engine.X{}
 	var rec func(name int, hist []int)
 	rec = func(name int, hist []int) {
-		evalHistory(x, name, hist)
-		if len(hist) == transDepth {
+		sp.evalHistory(x, name, hist)
+		if len(hist) == sp.depth {
 			return
 		}
-		for o := range tOps {
+		for o := range sp.ops {
 			rec(name, append(hist, o))
 		}
 	}
@@ -487,7 +556,8 @@ func pow(b, e int) int64 {
 }
 
 // expected sizes of the explored space, from the alphabet alone
-func expectedCounts(depth int) (concrete, abstract, steps int64) {
+func (sp *space) expectedCounts() (concrete, abstract, steps int64) {
+	depth, tOps, numAbs := sp.depth, sp.ops, sp.numAbs
 	long := 0
 	for _, o := range tOps {
 		if o.kind == kExtract && o.n >= 32 {
@@ -505,11 +575,12 @@ func expectedCounts(depth int) (concrete, abstract, steps int64) {
 }
 
 // injectivityBody: the global comparison, one execution. A collision is a VIOLATION of the property.
-func injectivityBody(x *engine.X) {
-	if !enumerated.Load() {
-		enumOnce.Do(func() { enumerateDirect(); complete.Store(true) })
+func (sp *space) injectivityBody(x *engine.X) {
+	inj := sp.inj
+	if !sp.enumerated.Load() {
+		sp.enumOnce.Do(func() { sp.enumerateDirect(); sp.complete.Store(true) })
 	}
-	_, wantAbs, wantSteps := expectedCounts(transDepth)
+	_, wantAbs, wantSteps := sp.expectedCounts()
 	x.Case("probe outputs")
 	x.Case("trailing extraction outputs")
 	inj.cmu.Lock()
@@ -525,10 +596,10 @@ func injectivityBody(x *engine.X) {
 		return cols[i].b < cols[j].b
 	})
 	for _, c := range cols {
-		x.Failf("transcript/injectivity", "two different histories give the same output bytes: %s == %s", ownerString(c.a), ownerString(c.b))
+		x.Failf("transcript/injectivity", "two different histories give the same output bytes: %s == %s", sp.ownerString(c.a), sp.ownerString(c.b))
 	}
 	gotP, gotS, gotH := inj.probes.Load(), inj.steps.Load(), inj.histories.Load()
-	if complete.Load() && len(cols) == 0 && (gotP != wantAbs || gotH != wantAbs || gotS != wantSteps) {
+	if sp.complete.Load() && len(cols) == 0 && (gotP != wantAbs || gotH != wantAbs || gotS != wantSteps) {
 		// #distinct outputs != #histories without a recorded collision: the enumeration itself is broken
 		engine.HarnessFail("injectivity bookkeeping: %d distinct probe outputs / %d histories recorded, %d expected; %d trailing-extraction outputs, %d expected", gotP, gotH, wantAbs, gotS, wantSteps)
 	}
@@ -538,7 +609,8 @@ func injectivityBody(x *engine.X) {
 // framesBody: the reference frames of the alphabet (plus the probe) are pairwise distinct and prefix-free, so a
 // concatenation of frames parses in exactly one way; together with "library == model at every step" this is why
 // the history -> bytes map is injective. (Checks the model, which the histories section ties to the library.)
-func framesBody(x *engine.X) {
+func (sp *space) framesBody(x *engine.X) {
+	tOps, numAbs := sp.ops, sp.numAbs
 	type fr struct {
 		name string
 		b    []byte
@@ -571,39 +643,55 @@ func framesBody(x *engine.X) {
 	x.Observe(fmt.Sprintf("%d frames pairwise prefix-free", len(frames)))
 }
 
-func TestCheck(t *testing.T) {
-	transDepth = 3
-	if engine.Thorough() {
-		transDepth = 4
-	}
-	wantConc, wantAbs, wantSteps := expectedCounts(transDepth)
-	engine.Rule(fmt.Sprintf("transcripts: every operation history of length <= %d over {constructor name in \"\",\"a\"} x {AppendDomainSeparator(t), t in \"\",\"a\",\"ab\"; AppendBytes(l, msgs), l in \"\",\"a\",\"ab\", msgs in [],[\"\"],[\"a\"],[\"ab\"],[\"a\",\"b\"],[\"\",\"ab\"],[\"a\",\"\"]; ExtractBytes(l, n), n in 1,2,32,64; Clone then continue on the clone; Clone then continue on the origin} is executed on the real hagrid transcript (%d concrete histories, %d abstract histories after erasing Clone); a history is distinct by its operation sequence and non-trivial always (every history ends with Extract(\"probe\",32)). hash-to-curve: every (curve, DST, message) of the stated grid; a case is distinct by that triple.", transDepth, wantConc, wantAbs))
-	engine.Assume(
-		"crypto/sha3 (cSHAKE256), crypto/sha256, crypto/sha512, x/crypto/blake2b and math/big of the Go distribution are correct",
-		"the math/big reference field/curve arithmetic and the RFC 9380 expand_message_xmd / hash_to_field re-implementation in checks/c19/ref_test.go are correct (they are validated against the RFC 9380 Appendix J vectors in section h2c/kat)",
-		"injectivity is decided on 32-byte outputs: equal outputs of two different histories are reported as a framing ambiguity (a genuine cSHAKE256 collision has probability < 2^-200 over the explored set)",
-		"1- and 2-byte extraction outputs are compared for determinism and against the framing model only (they collide by counting)",
-		"purego build of the library",
-	)
-
-	sec := engine.Explore(historiesBody, engine.Opts{Name: "transcript/histories", Budget: engine.Budget(3*time.Minute, 25*time.Minute)})
+// run explores one space: histories, then the global injectivity comparison, then the frame model.
+func (sp *space) run() {
+	wantConc, wantAbs, wantSteps := sp.expectedCounts()
+	inj := sp.inj
+	sec := engine.Explore(sp.historiesBody, engine.Opts{Name: "transcript/histories" + sp.suffix, Budget: engine.Budget(3*time.Minute, 25*time.Minute)})
 	if !sec.Skipped {
-		enumerated.Store(true)
-		complete.Store(sec.Exhaustive)
+		sp.enumerated.Store(true)
+		sp.complete.Store(sec.Exhaustive)
 		// explicit-state figures: a state is an abstract history (Clone erased), a transition is one executed operation
 		sec.States = inj.histories.Load()
-		sec.Transitions = sec.Executions - int64(len(ctorNames))
-		sec.Depth = transDepth
-		sec.Note("complete tree of operation histories to depth %d: %d executions (expected %d), %d clone-free histories = abstract states (expected %d), %d histories with Clone; %d distinct probe outputs, %d distinct trailing-extraction outputs (expected %d)", transDepth, sec.Executions, wantConc, inj.histories.Load(), wantAbs, inj.cloneHist.Load(), inj.probes.Load(), inj.steps.Load(), wantSteps)
-		fmt.Printf("[C19] transcript/histories: depth=%d states(abstract histories)=%d transitions=%d clone-histories=%d distinct-probe-outputs=%d\n", transDepth, sec.States, sec.Transitions, inj.cloneHist.Load(), inj.probes.Load())
-		if sec.Exhaustive && sec.Executions != wantConc {
-			engine.HarnessFail("transcript/histories executed %d histories, %d expected", sec.Executions, wantConc)
+		evaluated := inj.histories.Load() + inj.cloneHist.Load()
+		sec.Transitions = evaluated - int64(len(ctorNames))
+		sec.Depth = sp.depth
+		sec.Note("alphabet: %d operations (%d without Clone): %s", len(sp.ops), sp.numAbs, sp.spec)
+		sec.Note("complete tree of operation histories to depth %d: %d histories evaluated (expected %d), %d clone-free histories = abstract states (expected %d), %d histories with Clone; %d distinct probe outputs, %d distinct trailing-extraction outputs (expected %d)", sp.depth, evaluated, wantConc, inj.histories.Load(), wantAbs, inj.cloneHist.Load(), inj.probes.Load(), inj.steps.Load(), wantSteps)
+		fmt.Printf("[C19] transcript/histories%s: ops=%d depth=%d states(abstract histories)=%d transitions=%d clone-histories=%d distinct-probe-outputs=%d\n", sp.suffix, len(sp.ops), sp.depth, sec.States, sec.Transitions, inj.cloneHist.Load(), inj.probes.Load())
+		if sec.Exhaustive && (evaluated != wantConc || sec.Cases != wantConc) {
+			engine.HarnessFail("transcript/histories%s evaluated %d histories (%d cases), %d expected", sp.suffix, evaluated, sec.Cases, wantConc)
 		}
 	}
 	// a collision inside a partially explored set (exploration stopped by other failures / budget) is still a real one
-	engine.Explore(injectivityBody, engine.Opts{Name: "transcript/injectivity"})
-	engine.Explore(framesBody, engine.Opts{Name: "transcript/frames"})
+	engine.Explore(sp.injectivityBody, engine.Opts{Name: "transcript/injectivity" + sp.suffix})
+	engine.Explore(sp.framesBody, engine.Opts{Name: "transcript/frames" + sp.suffix})
+}
 
+func TestCheck(t *testing.T) {
+	// the math/big reference arithmetic allocates heavily on 16 workers; collect less often
+	debug.SetGCPercent(400)
+	spaces := []*space{newSpace("", wideAlphabet, 3)}
+	if engine.Thorough() {
+		spaces = append(spaces, newSpace("/deep", deepAlphabet, 4))
+	}
+	rule := "transcripts: every operation history over {constructor name in \"\",\"a\"} x the operation alphabet is executed on the real hagrid transcript and ends with Extract(\"probe\",32): "
+	for _, sp := range spaces {
+		c, a, _ := sp.expectedCounts()
+		rule += fmt.Sprintf("[length <= %d over {%s}: %d concrete histories, %d abstract histories after erasing Clone] ", sp.depth, sp.spec, c, a)
+	}
+	engine.Rule(rule + "a history is distinct by its operation sequence and always non-trivial. hash-to-curve / hash-to-field / expand_message: every (curve or field or expander, DST, message[, length]) of the stated grids; a case is distinct by that tuple.")
+	engine.Assume(
+		"crypto/sha3 (cSHAKE256, SHAKE), crypto/sha256, crypto/sha512, x/crypto/blake2b and math/big of the Go distribution are correct",
+		"the math/big reference field/curve arithmetic and the RFC 9380 expand_message / hash_to_field re-implementation in checks/c19/ref_test.go are correct (they are validated against the RFC 9380 Appendix J vectors in section h2c/kat)",
+		"injectivity is decided on 32-byte outputs: equal outputs of two different histories are reported as a framing ambiguity (a genuine cSHAKE256 collision has probability < 2^-200 over the explored set)",
+		"1- and 2-byte extraction outputs are compared for determinism and against the framing model only (they collide by counting)",
+		"the framing model (tag bytes 0xa1..0xa5, 64-bit big-endian lengths, extraction fork) is read off hagrid.go; a deliberate change of the wire format must be mirrored in checks/c19",
+		"purego build of the library",
+	)
+	for _, sp := range spaces {
+		sp.run()
+	}
 	h2cSections()
 	expanderSections()
 }
